@@ -82,18 +82,24 @@ Proof.
 Qed.
 
 Section Sem.
+Variable K : csig.      (* the constant signature of the problem the formula is printed in *)
 Variable FI : fint.
 Variable M : pint.
-Let S := tstruct_of FI M.
+Let S := tstruct_in K FI M.
 
 (* ---------- terms ---------- *)
-Lemma tev_const te x s :
+Lemma tev_const te x s : place_in K x s = true ->
   tev S te (TApp (x ++ suffix s) []) =
   match s with SGeneral => TG (fg FI x) | SInteger => TI (fi FI x) | SSymbol => TS (fs FI x) end.
 Proof.
-  cbn [tev map std_fun].
+  intros Hp. cbn [tev map std_fun].
   destruct (decode_not_extremum _ _ (decode_suffix x s)) as [-> ->].
-  unfold S, tstruct_of; cbn [t_const]. rewrite (decode_suffix x s). destruct s; reflexivity.
+  unfold S, tstruct_in; cbn [t_const]. unfold place_in in Hp.
+  destruct (clookup K (x ++ suffix s)) as [[|c' s']|].
+  - discriminate.
+  - apply andb_true_iff in Hp. destruct Hp as [H1 H2]. apply String.eqb_eq in H1.
+    destruct (sort_eqb_spec s' s); [|discriminate]. subst. destruct s; reflexivity.
+  - unfold const_by_suffix. rewrite (decode_suffix x s). destruct s; reflexivity.
 Qed.
 Lemma tev_var te e x s : env_rel te e ->
   tev S te (TVar (x ++ suffix s)) =
@@ -102,37 +108,34 @@ Proof.
   intros HR. cbn [tev]. rewrite HR. unfold tenv_of. rewrite (decode_suffix x s). destruct s; reflexivity.
 Qed.
 
-Lemma tev_iterm te e t : env_rel te e -> tev S te (tff_of_iterm t) = TI (ev_i FI e t).
+Lemma tev_iterm te e t : env_rel te e -> iterm_in K t = true -> tev S te (tff_of_iterm t) = TI (ev_i FI e t).
 Proof.
-  intros HR. induction t as [z|c|x|[] a IH|o l IHl r IHr]; cbn [tff_of_iterm ev_i].
+  intros HR. induction t as [z|c|x|[] a IH|o l IHl r IHr]; cbn [tff_of_iterm ev_i iterm_in]; intros Hok.
   - destruct (Z.ltb_spec z 0); cbn; f_equal; rewrite Z2N.id; lia.
-  - exact (tev_const te c SInteger).
+  - exact (tev_const te c SInteger Hok).
   - exact (tev_var te e x SInteger HR).
-  - cbn [tev map]. rewrite IH. reflexivity.
-  - cbn [tev map]. rewrite IHl, IHr. destruct o; reflexivity.
+  - cbn [tev map]. rewrite IH by exact Hok. reflexivity.
+  - apply andb_true_iff in Hok. destruct Hok as [Hl Hr].
+    cbn [tev map]. rewrite IHl, IHr by assumption. destruct o; reflexivity.
 Qed.
-Lemma sym_ok_inv s : sym_ok s = true ->
-  decode s = None /\ String.eqb s "c__infimum__" = false /\ String.eqb s "c__supremum__" = false.
+Lemma tev_sterm te e t : env_rel te e -> sterm_in K t = true -> tev S te (tff_of_sterm t) = TS (ev_s FI e t).
 Proof.
-  unfold sym_ok. rewrite !andb_true_iff, !negb_true_iff. intros [[[_ H1] H2] H3].
-  destruct (decode s); [discriminate|auto].
-Qed.
-Lemma tev_sterm te e t : env_rel te e -> sterm_ok t = true -> tev S te (tff_of_sterm t) = TS (ev_s FI e t).
-Proof.
-  intros HR Hok. destruct t as [s|c|x]; cbn [tff_of_sterm ev_s].
-  - apply sym_ok_inv in Hok. destruct Hok as [Hd [H1 H2]].
-    cbn [tev map std_fun]. rewrite H1, H2. unfold S, tstruct_of; cbn [t_const]. rewrite Hd. reflexivity.
-  - exact (tev_const te c SSymbol).
+  intros HR Hok. destruct t as [s|c|x]; cbn [tff_of_sterm ev_s sterm_in] in *.
+  - unfold sym_in in Hok. rewrite !andb_true_iff, !negb_true_iff in Hok. destruct Hok as [[H1 H2] H3].
+    cbn [tev map std_fun]. rewrite H1, H2. unfold S, tstruct_in; cbn [t_const].
+    destruct (clookup K s) as [[|c' s']|]; [reflexivity|discriminate|].
+    unfold const_by_suffix. destruct (decode s); [discriminate|reflexivity].
+  - exact (tev_const te c SSymbol Hok).
   - exact (tev_var te e x SSymbol HR).
 Qed.
-Lemma tev_gterm te e t : env_rel te e -> gterm_ok t = true -> tev S te (tff_of_gterm t) = TG (ev_g FI e t).
+Lemma tev_gterm te e t : env_rel te e -> gterm_in K t = true -> tev S te (tff_of_gterm t) = TG (ev_g FI e t).
 Proof.
-  intros HR Hok. destruct t as [| |c|x|a|a]; cbn [tff_of_gterm ev_g].
+  intros HR Hok. destruct t as [| |c|x|a|a]; cbn [tff_of_gterm ev_g gterm_in] in *.
   - reflexivity.
   - reflexivity.
-  - exact (tev_const te c SGeneral).
+  - exact (tev_const te c SGeneral Hok).
   - exact (tev_var te e x SGeneral HR).
-  - cbn [tev map]. rewrite (tev_iterm te e a HR). reflexivity.
+  - cbn [tev map]. rewrite (tev_iterm te e a HR Hok). reflexivity.
   - cbn [tev map]. rewrite (tev_sterm te e a HR Hok). reflexivity.
 Qed.
 
@@ -179,7 +182,7 @@ Proof.
   all: try (exfalso; apply H; congruence).
 Qed.
 
-Lemma sat_cmp1 te e l r rhs : env_rel te e -> gterm_ok l = true -> gterm_ok rhs = true ->
+Lemma sat_cmp1 te e l r rhs : env_rel te e -> gterm_in K l = true -> gterm_in K rhs = true ->
   (tff_sat S te (tff_of_cmp1 l r rhs) <-> rel_sat r (ev_g FI e l) (ev_g FI e rhs) = true).
 Proof.
   intros HR Hl Hr.
@@ -195,8 +198,8 @@ Proof.
     + pose proof (sat_cmp_gen te r _ _ _ _ El Er) as H. rewrite Eq in H. exact H.
 Qed.
 
-Lemma sat_chain te e : env_rel te e -> forall gs acc l, gterm_ok l = true ->
-  forallb (fun g => gterm_ok (gterm_of g)) gs = true ->
+Lemma sat_chain te e : env_rel te e -> forall gs acc l, gterm_in K l = true ->
+  forallb (fun g => gterm_in K (gterm_of g)) gs = true ->
   (tff_sat S te (tff_of_chain_from acc l gs) <-> tff_sat S te acc /\ chain_sat FI e (ev_g FI e l) gs = true).
 Proof.
   intros HR. induction gs as [|g gs IH]; intros acc l Hl Hgs; cbn [tff_of_chain_from chain_sat].
@@ -214,26 +217,26 @@ Proof.
   unfold std_pred. rewrite H1, H2.
   destruct args as [|a [|b [|c l]]]; rewrite ?H3, ?H4, ?H5, ?H6, ?H7, ?H8, ?H9, ?H10, ?H11, ?H12; reflexivity.
 Qed.
-Lemma map_tev_gterms te e ts : env_rel te e -> forallb gterm_ok ts = true ->
+Lemma map_tev_gterms te e ts : env_rel te e -> forallb (gterm_in K) ts = true ->
   map as_gen (map (tev S te) (map tff_of_gterm ts)) = map (ev_g FI e) ts.
 Proof.
   intros HR. induction ts as [|t ts IH]; cbn; [reflexivity|].
   rewrite andb_true_iff. intros [Ht Hts]. rewrite (tev_gterm te e t HR Ht), IH by assumption. reflexivity.
 Qed.
 
-Lemma sat_aformula te e a : env_rel te e -> aformula_ok a = true ->
+Lemma sat_aformula te e a : env_rel te e -> aformula_in K a = true ->
   (tff_sat S te (tff_of_aformula a) <-> asat FI M e a).
 Proof.
   intros HR Hok. destruct a as [| |p ts|t gs]; cbn [tff_of_aformula asat].
   - cbn. tauto.
   - cbn. tauto.
-  - cbn in Hok. apply andb_true_iff in Hok. destruct Hok as [Hp Hts].
-    unfold pred_ok in Hp. apply andb_true_iff in Hp. destruct Hp as [_ Hp]. apply negb_true_iff in Hp.
-    cbn [tff_sat]. rewrite (std_pred_unreserved p _ Hp). cbn [S tstruct_of t_pred].
+  - cbn [aformula_in] in Hok. apply andb_true_iff in Hok. destruct Hok as [Hp Hts].
+    apply negb_true_iff in Hp.
+    cbn [tff_sat]. rewrite (std_pred_unreserved p _ Hp). cbn [S tstruct_in t_pred].
     rewrite (map_tev_gterms te e ts HR Hts). tauto.
-  - cbn in Hok. rewrite !andb_true_iff in Hok. destruct Hok as [[Ht Hn] Hgs].
-    destruct gs as [|g gs]; [discriminate|].
-    cbn in Hgs. apply andb_true_iff in Hgs. destruct Hgs as [Hg Hgs].
+  - cbn [aformula_in] in Hok. rewrite !andb_true_iff in Hok. destruct Hok as [Ht Hgs].
+    destruct gs as [|g gs]; [cbn; tauto|].
+    cbn [forallb] in Hgs. apply andb_true_iff in Hgs. destruct Hgs as [Hg Hgs].
     rewrite (sat_chain te e HR gs _ _ Hg Hgs). rewrite (sat_cmp1 te e t (grel g) (gterm_of g) HR Ht Hg).
     cbn [chain_sat]. rewrite andb_true_iff. tauto.
 Qed.
@@ -256,16 +259,39 @@ Proof.
 Qed.
 
 (* ---------- formulas ---------- *)
-Theorem tff_of_formula_sat F : wf_tptp F = true ->
+Theorem tff_of_formula_sat_in F : names_in K F = true ->
   forall te e, env_rel te e -> (tff_sat S te (tff_of_formula F) <-> csat FI M e F).
 Proof.
-  induction F as [a|g IH|c l IHl r IHr|q vs g IH]; intros Hwf te e HR; cbn [tff_of_formula csat].
+  induction F as [a|g IH|c l IHl r IHr|q vs g IH]; intros Hwf te e HR; cbn [tff_of_formula csat names_in] in *.
   - apply sat_aformula; assumption.
-  - cbn [tff_sat]. cbn in Hwf. rewrite (IH Hwf te e HR). tauto.
-  - cbn in Hwf. apply andb_true_iff in Hwf. destruct Hwf as [Hl Hr].
+  - cbn [tff_sat]. rewrite (IH Hwf te e HR). tauto.
+  - apply andb_true_iff in Hwf. destruct Hwf as [Hl Hr].
     pose proof (IHl Hl te e HR). pose proof (IHr Hr te e HR).
     destruct c; cbn [tff_sat]; tauto.
-  - cbn in Hwf. rewrite !andb_true_iff in Hwf. destruct Hwf as [_ Hg].
-    cbn [tff_sat]. apply sat_quant; [|exact HR]. intros te' e' HR'. apply IH; assumption.
+  - cbn [tff_sat]. apply sat_quant; [|exact HR]. intros te' e' HR'. apply IH; assumption.
 Qed.
 End Sem.
+
+(* ---------- without declarations: the name half of wf_tptp ---------- *)
+Lemma iterm_in_nil t : iterm_in [] t = true.
+Proof. induction t as [| | |[] a IH|o l IHl r IHr]; cbn; auto. rewrite IHl, IHr. reflexivity. Qed.
+Lemma gterm_ok_in t : gterm_ok t = true -> gterm_in [] t = true.
+Proof.
+  destruct t as [| | | |a|[s| |]]; cbn; auto using iterm_in_nil.
+  unfold sym_ok, sym_in. cbn [clookup]. rewrite !andb_true_iff. tauto.
+Qed.
+Lemma wf_tptp_names F : wf_tptp F = true -> names_in [] F = true.
+Proof.
+  induction F as [a|g IH|c l IHl r IHr|q vs g IH]; cbn [wf_tptp names_in].
+  - destruct a as [| |p ts|t gs]; cbn [aformula_ok aformula_in]; auto; rewrite !andb_true_iff.
+    + intros [Hp Hts]. unfold pred_ok in Hp. apply andb_true_iff in Hp. split; [tauto|].
+      rewrite forallb_forall in *. auto using gterm_ok_in.
+    + intros [[Ht Hn] Hgs]. split; [apply gterm_ok_in, Ht|].
+      rewrite forallb_forall in *. auto using gterm_ok_in.
+  - exact IH.
+  - rewrite !andb_true_iff. intros [H1 H2]. auto.
+  - rewrite !andb_true_iff. intros [_ H3]. auto.
+Qed.
+Theorem tff_of_formula_sat FI M F : wf_tptp F = true ->
+  forall te e, env_rel te e -> (tff_sat (tstruct_of FI M) te (tff_of_formula F) <-> csat FI M e F).
+Proof. intros H. apply (tff_of_formula_sat_in [] FI M F), wf_tptp_names, H. Qed.
